@@ -956,7 +956,7 @@ func c08Once(c *ctx, pr *Protocol) {
 				name = s.Ctor.Content
 			}
 			key := core.Key(rule, pr.Rel, r.Name+".Start", "once:"+name)
-			if s.Send.Parent() != r.Fns["Start"] {
+			if !s.Sync {
 				c.r.Bad(rule, key, c.pos(s.Send), "a protocol message is sent from a nested function/goroutine of Start")
 				continue
 			}
